@@ -269,8 +269,10 @@ func c03Units(thorough bool) []*explore.Unit {
 				p.cfg.Faults = []sim.Fault{{At: k, Partial: pa}}
 				add(p, bound)
 				if pa == 0 {
+					// Close racing a sender that is past its done check needs two
+					// preemptions (into Close, and out of it before the socket is shut)
 					p.closer = true
-					add(p, bound)
+					add(p, bound+1)
 				}
 			}
 		}
@@ -279,9 +281,9 @@ func c03Units(thorough bool) []*explore.Unit {
 				p := base
 				p.srvKind, p.srvAt = kind, j
 				add(p, bound)
-				if thorough {
+				if thorough || kind == "silent" {
 					p.closer = true
-					add(p, bound)
+					add(p, bound+1)
 				}
 			}
 		}
